@@ -39,6 +39,8 @@ type c20State struct {
 	cancelErr   error
 	withEpochEr bool
 	curTrial    int
+	pollCancel  bool // cancellation observed at a poll (true) or happening during an evaluation / before the start (false)
+	cancelledAt int
 }
 
 var c20 *c20State
@@ -51,8 +53,9 @@ type c20Ctx struct{ opts *neat.Options }
 func (c *c20Ctx) Deadline() (time.Time, bool) { return time.Time{}, false }
 func (c *c20Ctx) Done() <-chan struct{} {
 	c20.polls++
-	if !c20.cancelled && vBool("cancelled at this check") {
+	if !c20.cancelled && c20.pollCancel && vBool("cancelled at this check") {
 		c20.cancelled = true
+		c20.cancelledAt = len(c20.log)
 	}
 	if c20.cancelled {
 		c20.log = append(c20.log, c20Event{kind: evCancel})
@@ -72,8 +75,17 @@ type c20Evaluator struct{}
 
 func (e *c20Evaluator) GenerationEvaluate(ctx context.Context, pop *genetics.Population, epoch *Generation) error {
 	c20.log = append(c20.log, c20Event{kind: evEval, trial: epoch.TrialId, gen: epoch.Id})
+	if !c20.cancelled && !c20.pollCancel && vBool("context cancelled during this evaluation") {
+		// cancellation is an external event: it may happen at any time, not only when the context is polled
+		c20.cancelled = true
+		c20.cancelledAt = len(c20.log)
+	}
 	if vBool("evaluator fails") {
 		c20.log[len(c20.log)-1].failed = true
+		if vBool("failing evaluator had already flagged the generation solved") {
+			epoch.Solved = true
+			epoch.Champion = &genetics.Organism{Fitness: 1}
+		}
 		return c20.evalErr
 	}
 	epoch.Solved = vBool("generation solved")
@@ -127,7 +139,11 @@ func c20StartGenome() *genetics.Genome {
 
 func vc20(maxRuns, maxGens int, observer, epochErrors bool) {
 	vRandUnscripted(true) // natively the real NewPopulation draws random weights the engine's stub does not
-	c20 = &c20State{evalErr: errors.New("evaluation failed"), epochErr: errors.New("epoch failed"), cancelErr: errors.New("context cancelled"), withEpochEr: epochErrors}
+	c20 = &c20State{evalErr: errors.New("evaluation failed"), epochErr: errors.New("epoch failed"), cancelErr: errors.New("context cancelled"), withEpochEr: epochErrors, cancelledAt: -1}
+	c20.pollCancel = vChoice("cancellation observed at a poll / external event", 2) == 0
+	if !c20.pollCancel && vBool("context cancelled before Execute is called") {
+		c20.cancelled, c20.cancelledAt = true, 0
+	}
 	opts := &neat.Options{PopSize: 1, CompatThreshold: 3, NodeActivators: []neatmath.NodeActivationType{neatmath.SigmoidSteepenedActivation}, NodeActivatorsProb: []float64{1}}
 	opts.EpochExecutorType = neat.EpochExecutorTypeSequential
 	opts.GenCompatMethod = neat.GenomeCompatibilityMethodFast
@@ -137,6 +153,9 @@ func vc20(maxRuns, maxGens int, observer, epochErrors bool) {
 	vAssume(vAnd(opts.NumGenerations >= 0, opts.NumGenerations <= maxGens))
 	runs, gens := vConcrete(opts.NumRuns), vConcrete(opts.NumGenerations)
 	e := &Experiment{}
+	if vChoice("Trials pre-sized longer than NumRuns", 2) == 1 {
+		e.Trials = make(Trials, runs+1)
+	}
 	var obs TrialRunObserver
 	if observer {
 		obs = &c20Observer{}
@@ -210,7 +229,7 @@ func vc20(maxRuns, maxGens int, observer, epochErrors bool) {
 			vAssert(!next(evFinish), "observer: trial finish notified exactly once")
 		}
 		// the trial is recorded
-		vAssert(len(e.Trials) == runs && e.Trials[t].Id == t && len(e.Trials[t].Generations) == recorded, "the results of every trial are recorded in order")
+		vAssert(len(e.Trials) >= runs && e.Trials[t].Id == t && len(e.Trials[t].Generations) == recorded, "the results of every trial are recorded in order")
 		for g := 0; g < recorded && g < len(e.Trials[t].Generations); g++ {
 			vAssert(e.Trials[t].Generations[g].Id == g && e.Trials[t].Generations[g].TrialId == t, "recorded generations carry their ids")
 		}
@@ -220,6 +239,12 @@ func vc20(maxRuns, maxGens int, observer, epochErrors bool) {
 		trialsDone++
 	}
 	vAssert(i == len(log), "nothing happens beyond the protocol (no further evaluation, turnover or notification)")
+	if c20.cancelledAt >= 0 {
+		for k := c20.cancelledAt; k < len(log); k++ {
+			// the evaluation during which the context was cancelled is log[cancelledAt-1]; nothing may be evaluated after it
+			vAssert(log[k].kind != evEval, "a cancelled context stops the run before the next generation is evaluated")
+		}
+	}
 	if aborted {
 		vAssert(err == wantErr && err != nil, "an evaluator error or a cancellation is returned to the caller")
 	} else {
